@@ -67,9 +67,20 @@ def run(ctx):
         if not name.startswith(V + "::") or f.root != name:
             continue
         reads_vault = any(x.endswith("ValidatorSubstate.stake_xrd_vault_id") for x in f.fr)
-        moves = any(re.search(r"NativeVault>::(put|take|take_advanced)$", c[0]) for c in f.calls)
+        moves = False
+        if reads_vault and any(re.search(r"NativeVault>::(put|take|take_advanced)$", c[0]) for c in f.calls):
+            # the receiver of the put/take is (possibly) Vault(<substate>.stake_xrd_vault_id)
+            b = ctx.body(name)
+            for bb, t in b.calls(r"NativeVault>::(put|take|take_advanced)$"):
+                for a in b.origins(t["args"][0]):
+                    if a.kind != "agg":
+                        continue
+                    for st in b.stmts(a.bb):
+                        if st["k"] == "=" and st["rv"]["k"] == "agg" and (st["rv"].get("adt") or "").endswith("::Vault"):
+                            if any(x.proj and x.proj[-1] == ".stake_xrd_vault_id" for o in st["rv"]["ops"] for x in b.origins(o)):
+                                moves = True
         flips = any(x.endswith("ValidatorSubstate.is_registered") for x in f.fw)
-        if (reads_vault and moves) or flips:
+        if moves or flips:
             movers[name] = f
     ctx.floor("stake-movers", len(movers), 5)
     for name, f in sorted(movers.items()):
